@@ -653,7 +653,7 @@ func init() {
 		ID: "C19", Level: "model_checking",
 		Rule: "map iteration order is an environment choice owned by the explorer (instrumented build: every `range` over a map in package astisub walks its sorted keys permuted by a hook): states = (cue list, writer, map-range site) choice points, transitions = permutations chosen, every execution's bytes compared with the sorted-order bytes; all permutations for maps of <=4 entries, identity+rotations+adjacent transpositions for 5-6 entries; cue lists = all multisets of <=4 styles over 6 heterogeneous attribute profiles x multisets of <=3 regions over 3 profiles; plain build: 50 repetitions in-process, 4 fresh processes, deep purity snapshot (values, aliasing, len/cap, spare capacity) before/after every write, all 120 writer orders, two injectable clocks",
 		Scope: map[core.Tier]string{
-			core.Quick:    "210 style multisets x 6 region multisets (<=2 regions) + two 5-6-entry lists, 5 writers, all map orders; plain: purity on all of those (every list also holds a cue with an empty line, a line without runs, a number out of sequence and times out of order), repetition/other-process/writer-order (all 120 orders of the five writers + the TTML writer with and without a per-call option in every order)/clock on 5 lists",
+			core.Quick:    "210 style multisets x 6 region multisets (<=2 regions) + two 5-6-entry lists, 5 writers, all map orders; plain: purity on all of those (every list also holds a cue with an empty line, a line without runs, a number out of sequence and times out of order), repetition/other-process/writer-order (all 120 orders of the five writers + the TTML writer with and without a per-call option in every order)/clock on 5 lists; purity also on lists whose every slice has spare capacity filled with recognisable values; identifier schemes where the ID field is blank / the same for all definitions while the keys differ; metadata comments with a line break and outer blanks",
 			core.Thorough: "462 style multisets (<=5 styles; 5-entry maps: rotations and adjacent transpositions) x 10 region multisets (<=3 regions)",
 		},
 		Assumptions: []string{"Go toolchain and standard library", "instrumented build = plain build with inert hooks (validated by running /repo's own tests against the overlay in setup and by the plain-build repetition checks)", "map walks inside dependencies are not controlled (encoding/xml marshals struct fields in declaration order; astikit.BiMap is only indexed)"},
